@@ -2203,6 +2203,15 @@ class Evaluator:
         self.emit("yield", live, ("yieldfrom", t), n)
 
     def e_Call(self, n, live):
+        if isinstance(n.func, ast.Name) and n.func.id == "dict" and "dict" not in self.env and len(n.args) == 1 \
+                and isinstance(n.args[0], (ast.Name, ast.Attribute, ast.Dict)):
+            # dict(d) of a mapping is the fresh copy {**d}; dict(d, k=v, **e) is {**d, "k": v, **e}
+            src_ = self.ev(n.args[0], live)
+            if src_[0] in ("param", "attr", "dict") and not (src_[0] == "param" and src_[1].startswith("*") and not src_[1].startswith("**")):
+                items_ = list(src_[1]) if src_[0] == "dict" else [(("dstar",), src_)]
+                for k_ in n.keywords:
+                    items_.append(((("dstar",) if k_.arg is None else ("const", k_.arg)), self.ev(k_.value, live)))
+                return fold_sub(("dict", tuple(items_)))
         self._callee_nodes = getattr(self, "_callee_nodes", set()) | {id(n.func)}
         f = self.ev(n.func, live)
         args = []
@@ -4302,6 +4311,14 @@ def fold_sub(t):
         t = _splice_stars(t)
     if t and t[0] == "bin" and t[1] == "+" and t[2][0] == "list" and t[3][0] == "list":
         return ("list", t[2][1] + t[3][1])  # [a] + [b] is [a, b]
+    if t and t[0] == "dict" and len(t) == 2 and any(isinstance(kv, tuple) and len(kv) == 2 and kv[0] == ("dstar",) and kv[1][0] == "dict" for kv in t[1]):
+        items_ = []
+        for kv in t[1]:
+            if kv[0] == ("dstar",) and kv[1][0] == "dict":
+                items_ += list(kv[1][1])  # {**{k: v}, ...} is {k: v, ...}
+            else:
+                items_.append(kv)
+        return ("dict", tuple(items_))
     if t and t[0] == "call" and t[1][0] == "attr" and t[1][2] == "join" and t[1][1][0] == "const" and isinstance(t[1][1][1], str) \
             and len(t[2]) == 1 and not t[3] and _join_as_fstr(t[1][1][1], t[2][0]) is not None:
         return _join_as_fstr(t[1][1][1], t[2][0])  # the display became explicit through a substitution
